@@ -142,6 +142,23 @@ func (r *recorder) log(ev map[string]any, f func(ev map[string]any)) {
 	r.mu.Unlock()
 }
 
+// logS logs an event of scenario s unless that scenario is already finished.
+func (r *recorder) logS(s *scen, ev map[string]any, f func(ev map[string]any)) {
+	r.mu.Lock()
+	if s.finished {
+		r.mu.Unlock()
+		return
+	}
+	if f != nil {
+		f(ev)
+	}
+	r.seq++
+	ev["seq"] = r.seq
+	r.events = append(r.events, ev)
+	r.cond.Broadcast()
+	r.mu.Unlock()
+}
+
 func (r *recorder) flush(w *bufio.Writer) int {
 	r.mu.Lock()
 	defer r.mu.Unlock()
@@ -258,6 +275,12 @@ func (p *proxy) cut() int {
 	return n
 }
 
+func (p *proxy) attempts() int {
+	p.mu.Lock()
+	defer p.mu.Unlock()
+	return p.accepted + p.refused
+}
+
 func (p *proxy) setMode(m string) {
 	p.mu.Lock()
 	p.mode = m
@@ -313,19 +336,20 @@ type callSt struct {
 }
 
 type scen struct {
-	env     env
-	epoch   uint64
-	rec     *recorder
-	mu      sync.Mutex
-	calls   map[uint64]*callSt // by uid
-	byID    map[int]*callSt
-	srv     *rpc.Server
-	srvAddr string
-	clients map[string]rpc.Client
-	proxies map[string]*proxy
-	closing map[string]chan struct{} // side -> closed when Close() returned
-	rpcLog  []string
-	sockN   int
+	finished bool // under rec.mu: late goroutines of a finished scenario must not log into the next one
+	env      env
+	epoch    uint64
+	rec      *recorder
+	mu       sync.Mutex
+	calls    map[uint64]*callSt // by uid
+	byID     map[int]*callSt
+	srv      *rpc.Server
+	srvAddr  string
+	clients  map[string]rpc.Client
+	proxies  map[string]*proxy
+	closing  map[string]chan struct{} // side -> closed when Close() returned
+	rpcLog   []string
+	sockN    int
 	// burst accounting (under rec.mu)
 	running int
 	peak    int
@@ -442,10 +466,10 @@ func (s *scen) handle(ctx context.Context, hctx *rpc.HandlerContext) error {
 	s.mu.Unlock()
 	if !ok || cs == nil {
 		// a request nobody sent (or with damaged content) reached the handler
-		s.rec.log(map[string]any{"ev": "badreq", "uid": uid, "len": len(hctx.Request)}, nil)
+		s.rec.logS(s, map[string]any{"ev": "badreq", "uid": uid, "len": len(hctx.Request)}, nil)
 		return &rpc.Error{Code: -1, Description: "bad request"}
 	}
-	s.rec.log(map[string]any{"ev": "enter", "id": cs.id}, func(map[string]any) { s.running++ })
+	s.rec.logS(s, map[string]any{"ev": "enter", "id": cs.id}, func(map[string]any) { s.running++ })
 	cs.once[0].Do(func() { close(cs.entered) })
 	var out string
 	select {
@@ -457,7 +481,7 @@ func (s *scen) handle(ctx context.Context, hctx *rpc.HandlerContext) error {
 			out = "cancelled"
 		}
 	}
-	s.rec.log(map[string]any{"ev": "exit", "id": cs.id, "out": out}, func(map[string]any) { s.running-- })
+	s.rec.logS(s, map[string]any{"ev": "exit", "id": cs.id, "out": out}, func(map[string]any) { s.running-- })
 	cs.once[1].Do(func() { close(cs.exited) })
 	switch out {
 	case "ok":
@@ -533,7 +557,7 @@ func (s *scen) start(id int, client string, tmoMs int, ff bool, size int) *callS
 	req := cl.GetRequest()
 	req.Body = append(req.Body[:0], makeReq(cs.uid, size)...)
 	req.FailIfNoConnection = ff
-	s.rec.log(map[string]any{"ev": "start", "id": id, "cl": client, "tmo": tmoMs > 0, "ff": ff}, nil)
+	s.rec.logS(s, map[string]any{"ev": "start", "id": id, "cl": client, "tmo": tmoMs > 0, "ff": ff}, nil)
 	go func() {
 		resp, err := cl.Do(ctx, s.env.Net, s.addrFor(client), req)
 		res, got, detail := classify(cs, resp, err)
@@ -542,7 +566,7 @@ func (s *scen) start(id int, client string, tmoMs int, ff bool, size int) *callS
 			ev["detail"] = detail
 		}
 		cs.res = res
-		s.rec.log(ev, nil)
+		s.rec.logS(s, ev, nil)
 		cl.PutResponse(resp)
 		cs.once[2].Do(func() { close(cs.returned) })
 	}()
@@ -569,14 +593,14 @@ func (s *scen) closeSide(side string) chan struct{} {
 	ch := make(chan struct{})
 	s.closing[side] = ch
 	s.mu.Unlock()
-	s.rec.log(map[string]any{"ev": "close", "side": side}, nil)
+	s.rec.logS(s, map[string]any{"ev": "close", "side": side}, nil)
 	go func() {
 		if side == "server" {
 			_ = s.srv.Close()
 		} else {
 			_ = s.clients[side].Close()
 		}
-		s.rec.log(map[string]any{"ev": "closed", "side": side}, nil)
+		s.rec.logS(s, map[string]any{"ev": "closed", "side": side}, nil)
 		close(ch)
 	}()
 	return ch
@@ -627,10 +651,13 @@ func (s *scen) finish(watchdog time.Duration) (hung []int) {
 		p.close()
 	}
 	if len(hung) == 0 {
-		s.rec.log(map[string]any{"ev": "end"}, nil)
+		s.rec.logS(s, map[string]any{"ev": "end"}, nil)
 	} else {
-		s.rec.log(map[string]any{"ev": "hung", "ids": hung}, nil)
+		s.rec.logS(s, map[string]any{"ev": "hung", "ids": hung}, nil)
 	}
+	s.rec.mu.Lock()
+	s.finished = true
+	s.rec.mu.Unlock()
 	return hung
 }
 
@@ -678,7 +705,7 @@ func runScenario(e env, sc scenario, rec *recorder, stepWait, watchdog time.Dura
 			s.start(st.ID, st.Cl, st.TmoMs, st.FF, 0)
 		case "cancel":
 			if cs := s.call(st.ID); cs != nil {
-				s.rec.log(map[string]any{"ev": "cancel", "id": st.ID}, nil)
+				s.rec.logS(s, map[string]any{"ev": "cancel", "id": st.ID}, nil)
 				cs.cancel()
 			}
 		case "waitenter":
@@ -706,17 +733,25 @@ func runScenario(e env, sc scenario, rec *recorder, stepWait, watchdog time.Dura
 		case "waitclosed":
 			ok = waitCh(s.closeSide(st.Side), stepWait)
 		case "shutdown":
-			s.rec.log(map[string]any{"ev": "shutdown", "side": "server"}, nil)
+			s.rec.logS(s, map[string]any{"ev": "shutdown", "side": "server"}, nil)
 			s.srv.Shutdown()
 		case "cut":
 			if p := s.proxies[st.Cl]; p != nil {
-				s.rec.log(map[string]any{"ev": "cut", "cl": st.Cl}, nil)
+				s.rec.logS(s, map[string]any{"ev": "cut", "cl": st.Cl}, nil)
 				p.cut()
 			}
 		case "proxy":
 			if p := s.proxies[st.Cl]; p != nil {
-				s.rec.log(map[string]any{"ev": "proxy", "cl": st.Cl, "mode": st.Mode}, nil)
+				s.rec.logS(s, map[string]any{"ev": "proxy", "cl": st.Cl, "mode": st.Mode}, nil)
 				p.setMode(st.Mode)
+			}
+		case "waitproxy": // the client has tried to connect at least st.ID times (so its first call is set up)
+			if p := s.proxies[st.Cl]; p != nil {
+				t0 := time.Now()
+				for p.attempts() < st.ID && time.Since(t0) < stepWait {
+					time.Sleep(time.Millisecond) // polling interval of a condition wait
+				}
+				ok = p.attempts() >= st.ID
 			}
 		default:
 			return "", nil, nil, fmt.Errorf("unknown step %q", st.Op)
@@ -840,7 +875,7 @@ func opMix(q request) map[string]any {
 				switch name {
 				case "cut":
 					c := []string{"c1", "c2"}[rnd.Intn(2)]
-					rec.log(map[string]any{"ev": "cut", "cl": c}, nil)
+					rec.logS(s, map[string]any{"ev": "cut", "cl": c}, nil)
 					s.proxies[c].cut()
 				case "closeSrv":
 					s.closeSide("server")
@@ -877,7 +912,7 @@ func opMix(q request) map[string]any {
 		p.acted = true
 		switch p.fate {
 		case "cancel":
-			rec.log(map[string]any{"ev": "cancel", "id": p.cs.id}, nil)
+			rec.logS(s, map[string]any{"ev": "cancel", "id": p.cs.id}, nil)
 			p.cs.cancel()
 			waitCh(p.cs.returned, 5*time.Second)
 			p.cs.gate <- p.out
@@ -934,12 +969,12 @@ func opBurst(q request) map[string]any {
 			cs := s.calls[uid]
 			s.mu.Unlock()
 			if !ok || cs == nil {
-				rec.log(map[string]any{"ev": "badreq", "uid": uid, "len": len(hctx.Request)}, nil)
+				rec.logS(s, map[string]any{"ev": "badreq", "uid": uid, "len": len(hctx.Request)}, nil)
 				return &rpc.Error{Code: -1, Description: "bad request"}
 			}
 			// counter and server-side accounting are read under the recorder mutex: every handler
 			// counted in `running` has acquired its request memory and not yet released it.
-			rec.log(map[string]any{"ev": "enter", "id": cs.id, "len": len(hctx.Request)}, func(ev map[string]any) {
+			rec.logS(s, map[string]any{"ev": "enter", "id": cs.id, "len": len(hctx.Request)}, func(ev map[string]any) {
 				s.running++
 				if s.running > s.peak {
 					s.peak = s.running
@@ -954,10 +989,10 @@ func opBurst(q request) map[string]any {
 			select {
 			case <-cs.gate:
 			case <-ctx.Done():
-				rec.log(map[string]any{"ev": "exit", "id": cs.id, "out": "cancelled"}, func(map[string]any) { s.running-- })
+				rec.logS(s, map[string]any{"ev": "exit", "id": cs.id, "out": "cancelled"}, func(map[string]any) { s.running-- })
 				return ctx.Err()
 			}
-			rec.log(map[string]any{"ev": "exit", "id": cs.id, "out": "ok"}, func(ev map[string]any) {
+			rec.logS(s, map[string]any{"ev": "exit", "id": cs.id, "out": "ok"}, func(ev map[string]any) {
 				s.running--
 				ev["running"] = s.running
 				cur, _ := srvRef.RequestsMemory()
@@ -1021,7 +1056,7 @@ func opBurst(q request) map[string]any {
 		}
 		time.Sleep(2 * time.Millisecond) // polling interval of the condition wait only
 	}
-	rec.log(map[string]any{"ev": "sample", "piled": piled}, func(ev map[string]any) {
+	rec.logS(s, map[string]any{"ev": "sample", "piled": piled}, func(ev map[string]any) {
 		cur, _ := s.srv.RequestsMemory()
 		ev["mem"], ev["running"], ev["waiting"] = cur, s.running, s.srv.RequestsCurrent()
 	})
@@ -1061,14 +1096,15 @@ func opBurst(q request) map[string]any {
 		released[cs.id] = true
 		cs.gate <- "ok"
 		waitCh(cs.exited, 10*time.Second)
-		rec.log(map[string]any{"ev": "sample"}, func(ev map[string]any) {
+		rec.logS(s, map[string]any{"ev": "sample"}, func(ev map[string]any) {
 			cur, _ := s.srv.RequestsMemory()
 			ev["mem"], ev["running"], ev["waiting"] = cur, s.running, s.srv.RequestsCurrent()
 		})
 	}
 	// every request must be answered while both sides are still open
+	retDeadline := time.Now().Add(time.Duration(q.Watchdog) * time.Millisecond)
 	for _, cs := range all {
-		waitCh(cs.returned, time.Duration(q.Watchdog)*time.Millisecond)
+		waitCh(cs.returned, time.Until(retDeadline))
 	}
 	hung := s.finish(time.Duration(q.Watchdog) * time.Millisecond)
 	f, err := os.Create(q.Out)
